@@ -3,6 +3,24 @@
 //! "wrap" in a couple of steps.
 use rustradio::Sample;
 
+/// Fat sample types: everything the generic library blocks need.
+pub trait BigT:
+    Elem
+    + From<u64>
+    + Default
+    + std::ops::Add<Output = Self>
+    + std::ops::Mul<Output = Self>
+    + std::ops::BitXor<Output = Self>
+    + rustradio::Sample<Type = Self>
+{
+    /// Payload.
+    fn val(&self) -> u64;
+    /// Stream capacity per page.
+    fn per_page() -> usize {
+        4096 / std::mem::size_of::<Self>()
+    }
+}
+
 /// Common interface for all the element types used by the ring engines.
 pub trait Elem: Copy + PartialEq + std::fmt::Debug + Send + Sync + 'static {
     /// Make a value from a serial number, filling the *whole* element, so that
@@ -107,6 +125,11 @@ macro_rules! big_type {
         impl From<u64> for $name {
             fn from(v: u64) -> Self {
                 Self::new(v)
+            }
+        }
+        impl BigT for $name {
+            fn val(&self) -> u64 {
+                self.v
             }
         }
     };
